@@ -86,8 +86,7 @@ Definition check (c : c20case) : verdict :=
               (* outside 0..keys-1 the column hash collides: behaviour there is outside the property's domain *)
               (negb (match kf with None => true
                      | Some f => cols_in_keys (f_keys f) g && forallb (forallb (in_keys (f_keys f))) (f_ar f) end)
-               || opt_eqb arrays_eqb (combinations g n ms2 cf kf tf) ic
-               || opt_eqb arrays_eqb (combinations_with chord_filter_rows g n ms2 cf kf tf) ic,   (* repaired variant *)
+               || opt_eqb arrays_eqb (combinations g n ms2 cf kf tf) ic,
                (2 <=? size) && wf_combos g n cf kf tf,
                match ic with Some o => combos_specb g n ms2 cf kf tf o | None => false end)
           | RJacks minlen keys =>
@@ -95,8 +94,7 @@ Definition check (c : c20case) : verdict :=
                (2 <=? minlen) && cols_in_keys keys g,
                match ic with Some o => jacks_specb g (Z.to_nat minlen) keys o | None => false end)
           | RChordStream p s keys al ij =>
-              (negb (ij || cols_in_keys keys g) || opt_eqb arrays_eqb (template_chord_stream g p s keys al ij) ic
-               || opt_eqb arrays_eqb (template_chord_stream_with chord_filter_rows g p s keys al ij) ic,
+              (negb (ij || cols_in_keys keys g) || opt_eqb arrays_eqb (template_chord_stream g p s keys al ij) ic,
                cols_in_keys keys g,
                match ic with Some o => chord_stream_specb g p s keys al ij o | None => false end)
           end
